@@ -263,4 +263,188 @@ theorem requests_in_scope_seed (S : SF) (I : IF) (cfg : Cfg) (norm : String → 
     obtain ⟨h1, h2⟩ := keep_in_scope cfg norm _ i r hv
     exact ⟨r, by rw [hx']; exact h1, h2⟩
 
+/-! ### bounds on the work per seed (C06) -/
+
+def okPost (S : SF) : Bool :=
+  S.redirectStatuses == [300, 301, 302, 303, 307, 308] && S.postOnlyArchived && S.redirectLimitOp == .ge &&
+  S.redirectLimitCompletes && S.redirectChildFields && S.depthCutOp == .gt && S.depthCut == 2 && S.depthCutShape &&
+  S.depthOneHtmlRule && S.disableAssetsRule && S.only200Extracted && S.assetsBecomeChildren && S.outlinkDomainsCrawlRule &&
+  S.outlinksIncludeAssetOutlinks && S.postCompletionRule && S.postWorksAtMaxDepth && S.outlinkHopsOp == .lt &&
+  S.outlinkGuardShape && S.outlinkHopsPlusOne && S.assetHopsSame && S.assetOutlinkHopsPlusOne && S.assetSelfDuplicateRemoved &&
+  S.assetGuardShape
+
+theorem okPost_ops {S : SF} (h : okPost S = true) :
+    S.redirectLimitOp = .ge ∧ S.depthCutOp = .gt ∧ S.depthCut = 2 ∧ S.outlinkHopsOp = .lt := by
+  simp only [okPost, Bool.and_eq_true, beq_iff_eq] at h
+  obtain ⟨⟨⟨⟨⟨⟨⟨⟨⟨⟨⟨⟨⟨⟨⟨⟨⟨⟨⟨⟨⟨⟨_, _⟩, h3⟩, _⟩, _⟩, h6⟩, h7⟩, _⟩, _⟩, _⟩, _⟩, _⟩, _⟩, _⟩, _⟩, _⟩, h17⟩, _⟩, _⟩, _⟩, _⟩, _⟩, _⟩ := h
+  exact ⟨h3, h6, h7, h17⟩
+
+/-- a redirect is followed only below the limit; the target carries one more redirect and the page's hops -/
+theorem redirect_child (S : SF) (hS : okPost S = true) (cfg : Cfg) (ex : String → Extract) (i : Info) (dnr : Int) (c : Info)
+    (h : postAct S cfg ex i dnr = .redirect c) :
+    i.redirects < cfg.maxRedirect ∧ c.redirects = i.redirects + 1 ∧ c.redirects ≤ cfg.maxRedirect ∧ c.hops = i.hops ∧ c.st = .fresh := by
+  obtain ⟨h1, _, _, _⟩ := okPost_ops hS
+  unfold postAct at h
+  split at h
+  · split at h
+    · cases h
+    · rename_i hlim
+      simp only [h1, Cmp.eval, decide_eq_true_eq] at hlim
+      cases h
+      exact ⟨by omega, rfl, by simp only; omega, rfl, rfl⟩
+  · split at h
+    · cases h
+    · split at h
+      · cases h
+      · split at h
+        · cases h
+        · split at h <;> cases h
+
+/-- beyond depth 2 (domains-crawl off) nothing is extracted: no asset children, no outlinks -/
+theorem no_extraction_beyond_depth (S : SF) (hS : okPost S = true) (cfg : Cfg) (ex : String → Extract) (i : Info) (dnr : Int)
+    (hdc : cfg.domainsCrawl = false) (hd : 2 < dnr) :
+    postAct S cfg ex i dnr = .complete ∨ ∃ c, postAct S cfg ex i dnr = .redirect c := by
+  obtain ⟨_, h2, h3, _⟩ := okPost_ops hS
+  unfold postAct
+  split
+  · split
+    · exact Or.inl rfl
+    · exact Or.inr ⟨_, rfl⟩
+  · have : (!cfg.domainsCrawl && S.depthCutOp.eval dnr (S.depthCut : Int)) = true := by
+      simp [hdc, h2, h3, Cmp.eval]; omega
+    simp [this]
+
+/-- what extraction produces: assets inherit the page's hops (and start with no redirect), outlinks
+get hops + 1 and only from a page below the hop limit, or 0 when they match domains-crawl -/
+theorem extraction_hops (S : SF) (hS : okPost S = true) (cfg : Cfg) (ex : String → Extract) (i : Info) (dnr : Int)
+    (kids : List Info) (outs : List Outlink) (h : postAct S cfg ex i dnr = .extract kids outs) :
+    (∀ k ∈ kids, k.hops = i.hops ∧ k.redirects = 0 ∧ k.st = .fresh) ∧
+    (∀ o ∈ outs, o.via = i.url ∧
+      ((cfg.domainsCrawl = true ∧ o.raw ∈ cfg.dcMatch ∧ o.hops = 0) ∨ (o.hops = i.hops + 1 ∧ i.hops < cfg.maxHops))) := by
+  obtain ⟨_, _, _, h4⟩ := okPost_ops hS
+  unfold postAct at h
+  split at h
+  · split at h <;> cases h
+  · split at h
+    · cases h
+    · split at h
+      · cases h
+      · split at h
+        · cases h
+        · split at h
+          · cases h
+            constructor
+            · intro k hk
+              split at hk
+              · simp only [List.mem_map, List.mem_filter] at hk
+                obtain ⟨a, _, rfl⟩ := hk
+                exact ⟨rfl, rfl, rfl⟩
+              · cases hk
+            · intro o ho
+              split at ho
+              · rename_i hw
+                simp only [List.mem_filterMap] at ho
+                obtain ⟨raw, _, hraw⟩ := ho
+                split at hraw
+                · rename_i hm
+                  simp only [Bool.and_eq_true, List.contains_eq_mem, decide_eq_true_eq] at hm
+                  cases hraw
+                  exact ⟨rfl, Or.inl ⟨hm.1, hm.2, rfl⟩⟩
+                · split at hraw
+                  · cases hraw
+                  · rename_i hnm hskip
+                    cases hraw
+                    refine ⟨rfl, Or.inr ⟨rfl, ?_⟩⟩
+                    simp only [h4, Cmp.eval, Bool.or_eq_true, Bool.and_eq_true, decide_eq_true_eq] at hw
+                    rcases hw with hw | hw
+                    · simp only [hw.1, Bool.true_and, Bool.and_eq_true, Bool.not_eq_true', decide_eq_true_eq, not_and,
+                        Bool.not_eq_true, Bool.not_eq_false, List.contains_eq_mem] at hnm hskip
+                      have := hskip (by simpa using hnm)
+                      omega
+                    · exact hw.1
+              · cases ho
+          · cases h
+            exact ⟨(by intro k hk; cases hk), (by intro o ho; cases ho)⟩
+
+/-! ### the bound as a whole-tree invariant of postprocess -/
+
+theorem Forest.flatten_append (a b : Forest) : (a.append b).flatten = a.flatten ++ b.flatten := by
+  induction a using Forest.rec (motive_1 := fun _ => True) with
+  | node => trivial
+  | nil => simp [Forest.append, Forest.flatten]
+  | cons t f _ ih => simp [Forest.append, Forest.flatten, ih]
+
+theorem flatten_foldl_kids (kids : List Info) (k : Forest) :
+    (kids.foldl (fun acc c => acc.append (.cons (.node c .nil) .nil)) k).flatten = k.flatten ++ kids := by
+  induction kids generalizing k with
+  | nil => simp
+  | cons c cs ih => simp [List.foldl_cons, ih, Forest.flatten_append, Forest.flatten, Tree.flatten]
+
+/-- the per-node facts C06 bounds: at most `maxRedirect` redirects behind it, and the seed's hop count -/
+def Bounded (cfg : Cfg) (hops : Nat) (j : Info) : Prop := j.redirects ≤ cfg.maxRedirect ∧ j.hops = hops
+
+mutual
+theorem Tree.post_bounded (S : SF) (hS : okPost S = true) (cfg : Cfg) (ex : String → Extract) (hops d lvl : Nat) (pdnr : Int)
+    (isSeed : Bool) (t : Tree) (h : ∀ j ∈ t.flatten, Bounded cfg hops j) :
+    ∀ j ∈ (t.post S cfg ex d lvl pdnr isSeed).1.flatten, Bounded cfg hops j := by
+  match t with
+  | .node i k =>
+    have hi : Bounded cfg hops i := h i (by simp [Tree.flatten])
+    have hk : ∀ j ∈ k.flatten, Bounded cfg hops j := fun j hj => h j (by simp [Tree.flatten, hj])
+    unfold Tree.post
+    split
+    · split
+      · show ∀ j ∈ (match postAct S cfg ex i (nodeDnr isSeed i.st pdnr) with
+            | PostAct.complete => _ | PostAct.redirect c => _ | PostAct.extract kids outs => _ : Tree × List Outlink).1.flatten, _
+        split
+        · intro j hj
+          simp only [Tree.flatten, List.mem_cons] at hj
+          rcases hj with rfl | hj
+          · exact hi
+          · exact hk j hj
+        · rename_i c hc
+          obtain ⟨_, _, h3, h4, _⟩ := redirect_child S hS cfg ex i _ c hc
+          intro j hj
+          simp only [Tree.flatten, Forest.flatten_append, Forest.flatten, List.mem_cons, List.mem_append, List.append_nil,
+            List.not_mem_nil, or_false] at hj
+          rcases hj with rfl | hj | rfl
+          · exact hi
+          · exact hk j hj
+          · exact ⟨h3, h4.trans hi.2⟩
+        · rename_i kids outs hc
+          obtain ⟨hkids, _⟩ := extraction_hops S hS cfg ex i _ kids outs hc
+          intro j hj
+          simp only [Tree.flatten, flatten_foldl_kids, List.mem_cons, List.mem_append] at hj
+          rcases hj with rfl | hj | hj
+          · exact hi
+          · exact hk j hj
+          · obtain ⟨a, b, _⟩ := hkids j hj
+            exact ⟨by omega, a.trans hi.2⟩
+      · intro j hj
+        simp only [Tree.flatten, List.mem_cons] at hj
+        rcases hj with rfl | hj
+        · exact hi
+        · exact hk j hj
+    · intro j hj
+      simp only [Tree.flatten, List.mem_cons] at hj
+      rcases hj with rfl | hj
+      · exact hi
+      · exact Forest.post_bounded S hS cfg ex hops d (lvl + 1) _ k hk j hj
+theorem Forest.post_bounded (S : SF) (hS : okPost S = true) (cfg : Cfg) (ex : String → Extract) (hops d lvl : Nat) (pdnr : Int)
+    (f : Forest) (h : ∀ j ∈ f.flatten, Bounded cfg hops j) :
+    ∀ j ∈ (f.post S cfg ex d lvl pdnr).1.flatten, Bounded cfg hops j := by
+  match f with
+  | .nil => intro j hj; simp [Forest.post, Forest.flatten] at hj
+  | .cons t f =>
+    intro j hj
+    simp only [Forest.post, Forest.flatten, List.mem_append] at hj h
+    rcases hj with hj | hj
+    · exact Tree.post_bounded S hS cfg ex hops d lvl pdnr false t (fun j hj => h j (Or.inl hj)) j hj
+    · exact Forest.post_bounded S hS cfg ex hops d lvl pdnr f (fun j hj => h j (Or.inr hj)) j hj
+end
+
+theorem postprocess_bounded (S : SF) (hS : okPost S = true) (cfg : Cfg) (ex : String → Extract) (hops : Nat) (t : Tree)
+    (h : ∀ j ∈ t.flatten, Bounded cfg hops j) : ∀ j ∈ (postprocess S cfg ex t).1.flatten, Bounded cfg hops j :=
+  Tree.post_bounded S hS cfg ex hops _ _ _ _ t h
+
 end Zeno.Model.Stages
